@@ -275,6 +275,10 @@ def _rsa_pool(r, f, focus):
       keytype, h = A.denylist_fingerprint(int(a["n"], 16))
       bits = int(keytype.split("-")[1])
       deny.setdefault(bits, []).append(h)
+  if focus == "C17" and "bit_pattern" not in enabled and r.random() < 0.25:
+    # per-key limits derived from the bit length next to a much smaller key
+    pool.append(A.rsa_bit_pattern(r, psize=r.choice([127, 255, 256])))
+    pool.append(A.rsa_short(r, r.choice([512, 768])))
   if r.random() < f["degenerate"] * 1.5:
     for kind in r.sample(A.DEGENERATE_KINDS_CHEAP, r.randint(1, 4)):
       pool.append(A.rsa_degenerate(r, kind))
